@@ -171,12 +171,21 @@ def case_strategy(draw, ctx):
         sources.append(s)
     planes = [(s["axis"], s["pos"]) for s in sources if s["type"].endswith("_plane")]
     objects = []
-    for i in range(draw(st.integers(0, 2))):
+    for i in range(draw(st.sampled_from([1, 1, 2]))):
         lo, hi = draw(scenes.box_strategy(shape, min_size=1))
         m = draw(scenes.material_strategy(tiers=("iso", "diag", "full"), lossy=True, lo=1.0, hi=5.0))
         if _is_aniso(m) and any(lo[a] <= p < hi[a] for a, p in planes):
             m = _iso(m)
         objects.append({"name": f"box{i}", "lo": lo, "hi": hi, "material": m, "order": i})
+    # two boxes of identical extent at different positions in most scenes (writes of the same shape to different
+    # places of equally shaped arrays)
+    if objects and draw(st.integers(0, 3)) > 0:
+        o = objects[0]
+        size = [o["hi"][a] - o["lo"][a] for a in range(3)]
+        lo2 = [draw(st.integers(0, shape[a] - size[a])) for a in range(3)]
+        if lo2 != o["lo"]:
+            m2 = draw(scenes.material_strategy(tiers=("iso",), lossy=True, lo=1.0, hi=5.0))
+            objects.append({"name": "twin", "lo": lo2, "hi": [lo2[a] + size[a] for a in range(3)], "material": m2, "order": 7})
     bg = {"eps": draw(st.sampled_from([1.0, 2.25]))}
     if draw(st.integers(0, 3)) == 0:
         bg["mu"] = 1.5
